@@ -221,6 +221,41 @@ def run_c04(repo, tier, seed, only=None):
                 if k not in exp_inner:
                     exp_inner[k] = v
             cases.append(([G.render(G.mp([('p', G.mp(old_items))])), G.render(G.mp([('p', G.mp(new_items, 'del'))]))], {'p': exp_inner}))
+        # F3: protected entries SEVERAL levels below the deleting node keep their enclosing containers alive (the pruning walk
+        # keeps a container iff it is protected itself or something below it survives); everything unprotected goes
+        def old_tree(depth):
+            items = []
+            for k in rng.sample(G.KEYS[:4], rng.randint(1, 3)):
+                if depth > 0 and rng.random() < 0.55:
+                    items.append((k, old_tree(depth - 1)))
+                else:
+                    items.append((k, G.leaf(rng.randint(0, 3), rng.choice([None, None, 'force', 'weak']))))
+            return G.mp(items)
+
+        def pruned(t):
+            out = {}
+            for k, v in t[1]:
+                if v[0] == 'leaf':
+                    if v[2] == 'force':
+                        out[k] = v[1]
+                else:
+                    sub = pruned(v)
+                    if sub:
+                        out[k] = sub
+            return out
+        for _ in range(n_cases(tier, 200, 3000)):
+            old = old_tree(3)
+            new_items = [(k, G.leaf(rng.randint(4, 7))) for k in rng.sample(['n1', 'n2', 'n3'], rng.randint(1, 2))]
+            exp_inner = pruned(old)
+            exp_inner.update({k: v[1] for k, v in new_items})
+            chain = rng.sample(G.KEYS, rng.randint(0, 2))
+            o, nw = old, G.mp(new_items, 'del')
+            for k in reversed(chain):
+                o, nw = G.wrap(o, k), G.wrap(nw, k)
+            exp = exp_inner
+            for k in reversed(chain):
+                exp = {k: exp}
+            cases.append(([G.render(o), G.render(nw)], exp))
     else:
         cases = [(only, None)]
     for texts, exp in cases:
@@ -251,11 +286,29 @@ def run_c05(repo, tier, seed, only=None):
     seqs = [[G.mp([('x', G.mp([('a', G.mp([('q', G.leaf(2))]))]))]), G.mp([('x', G.mp([('a', G.mp([('x', G.mp([('a', G.mp([('q', G.leaf(9, 'weak'))]))]))], 'del'))]))])]]
     for _ in range(n_cases(tier, 300, 5000)):
         seqs.append(gen_sequence(rng, no_prio_in_seq=True))
+    # F2: a deleting newer document over older content of mixed priorities, key names shared between levels (a comparison
+    # made at the wrong depth then meets a node of the same name)
+    def mixed(depth, tags):
+        items = []
+        for k in rng.sample(['a', 'b', 'x'], rng.randint(1, 3)):
+            if depth > 0 and rng.random() < 0.5:
+                items.append((k, mixed(depth - 1, tags)))
+            else:
+                items.append((k, G.leaf(rng.randint(0, 9), rng.choice(tags))))
+        return G.mp(items)
+    for _ in range(n_cases(tier, 300, 5000)):
+        old = mixed(2, [None, None, 'force', 'weak'])
+        new = mixed(1, [None, None, 'force', 'weak'])
+        new = (new[0], new[1], 'del')
+        docs = [old, new]
+        if rng.random() < 0.3:
+            docs.append(mixed(1, [None, 'force']))
+        seqs.append(docs)
     for docs in seqs:
         texts = [G.render(d) for d in docs]
         base = build(ay, texts)
         # wrap under one key and under a chain whose names coincide with keys used inside
-        for chain in (['w'], [rng.choice(G.KEYS)], [rng.choice(G.KEYS), rng.choice(G.KEYS)]):
+        for chain in (['w'], [rng.choice(G.KEYS[:3])], [rng.choice(G.KEYS[:3]), rng.choice(G.KEYS)]):
             wdocs = docs
             for k in reversed(chain):
                 wdocs = [G.wrap(d, k) for d in wdocs]
